@@ -320,17 +320,30 @@ fn gen(args: &Args, emit: &mut dyn FnMut(Value)) {
         // --ctx-len M (all suffixes of length <= M after every context prefix)
         let mut exh_len = 5usize;
         let mut ctx_len = 4usize;
+        let mut len7 = false;
         let mut i = 0;
         while i + 1 < args.extra.len() {
             match args.extra[i].as_str() {
                 "--exh-len" => exh_len = args.extra[i + 1].parse().expect("exh-len"),
                 "--ctx-len" => ctx_len = args.extra[i + 1].parse().expect("ctx-len"),
+                "--len7-alpha16" => len7 = args.extra[i + 1] == "1",
                 _ => {}
             }
             i += 2;
         }
         let k = ALPHA.len() as u64;
         let block: u64 = 8192;
+        if len7 {
+            // all strings of length exactly 7 over the first 16 symbols (no `[`, `]`, `?`)
+            let a16 = &ALPHA[..16];
+            let total = 16u64.pow(7);
+            let mut lo = 0u64;
+            while lo < total {
+                let n = (4 * block).min(total - lo);
+                emit(json!({"exh": true, "pre": "", "alpha": hex(a16), "len": 7, "lo": lo, "n": n}));
+                lo += n;
+            }
+        }
         for (ci, ctx) in CONTEXTS.iter().enumerate() {
             let maxlen = if ci == 0 { exh_len } else { ctx_len };
             for len in 0..=maxlen {
